@@ -19,6 +19,7 @@ import BV.Drive.Zopfli
 import BV.Drive.Greedy
 import BV.Drive.E2E
 import BV.Drive.Window
+import BV.Drive.Catable
 
 /-- line protocol: `<engine> <args…>` in, one canonical line out -/
 def dispatch (line : String) : String :=
@@ -46,6 +47,7 @@ def dispatch (line : String) : String :=
   | "greedy" :: rest => BV.Drive.Greedy.handle rest
   | "e2e" :: rest => BV.Drive.E2E.handle rest
   | "window" :: rest => BV.Drive.Window.handle rest
+  | "catable" :: rest => BV.Drive.Catable.handle rest
   | _ => "bad-engine"
 
 partial def loop (h : IO.FS.Stream) (out : IO.FS.Stream) : IO Unit := do
